@@ -1,11 +1,11 @@
-\* lexeme cfg "div" (see Pool / Seps in Scanner.tla), sequences of length 3..3, both comment modes
+\* lexeme cfg "div" (see Pool / Seps in Scanner.tla), sequences of length 3..3, model exported with ScanComments (the harness runs the real scanners in both modes)
 SPECIFICATION Spec
 CONSTANTS
   Alphabet = {}
   MinLen = 3
   MaxLen = 3
   Dialects = {"xgo", "go"}
-  CommentModes = {TRUE, FALSE}
+  CommentModes = {TRUE}
   InputMode = "lexemes"
   Gen = "div"
 INVARIANTS TypeOK TokenBound OffsetsMonotone TextExact Partition Export
